@@ -479,6 +479,8 @@ def run(rep, progs, tier):
     rep.rule("C13.vec", "Vec pairs by zip and pushes in order; command_list maps in order, None iff empty")
     rep.rule("C13.render", "single => bare command; N>=2 => ok_begin, commands in a loop, end")
     rep.rule("C13.empty", "empty typed list sends nothing")
+    rep.rule("C13.one-line.arg-lf", "every argument is scanned for a line feed after rendering (C07's rule): N commands are N lines")
+    rep.rule("C13.one-line.rollback", "a rejected argument leaves the command as it was (C07's rule)")
     rep.trusted = ["rustc MIR construction", "mpdfacts exporter", "std Vec/zip iteration order", "MPD list keywords (protocol reference)"]
     for cfg, prog in progs.items():
         tuple_rule(rep, prog, cfg)
@@ -493,4 +495,9 @@ def run(rep, progs, tier):
             rep.fail("C13.render", cfg + "/framing words refused as commands", "mpd_protocol/src/command.rs", "validator of Command::build not found (failing closed)")
         else:
             list_words_rule(rep, prog, cfg, V, rule="C13.render")
+        # "... holding the N command lines in order": a command is one line only if no argument can carry a line feed — the scan over
+        # the rendered argument and the rollback are C07's rules, decided here for C13's clause
+        from .C07 import arg_rules
+        with rep.importing("C07.", "C13.one-line."):
+            arg_rules(rep, prog, cfg)
         empty_rule(rep, prog, cfg)
